@@ -32,7 +32,8 @@ import (
 // call is one operation on the shared object with a fixed input.
 type call struct {
 	op   string // operation name (token, no spaces)
-	in   []byte // the input shown in a divergence message and hashed into the line
+	in   []byte // the input shown in a divergence message
+	hin  []byte // the seeded input hashed into the line (in itself when that is seeded)
 	want string // canonical result of the same call executed alone
 	// do performs the call and returns its canonical result. r is private to the calling
 	// goroutine (chunk sizes, yields).
@@ -83,7 +84,14 @@ func (t *target) guardBytes(b []byte) []byte {
 }
 
 func (t *target) add(op string, in []byte, want string, do func(r *hlib.Rng) string) {
-	t.calls = append(t.calls, call{op: op, in: in, want: want, do: do})
+	t.calls = append(t.calls, call{op: op, in: in, hin: in, want: want, do: do})
+}
+
+// addX is add for inputs that are not functions of the seed (ciphertexts, signatures, tags made
+// with fresh randomness): `show` appears in a divergence message, the seeded `hin` (the plaintext
+// or message behind it) is what the line's inputs hash covers.
+func (t *target) addX(op string, show, hin []byte, want string, do func(r *hlib.Rng) string) {
+	t.calls = append(t.calls, call{op: op, in: show, hin: hin, want: want, do: do})
 }
 
 // canon is the canonical form of an output: length, first bytes, digest.
@@ -155,6 +163,7 @@ type engine struct {
 	nCalls  int
 	diverge int
 	verbose bool
+	filter  map[string]bool // -replay: only the objects named in the replay file
 }
 
 // runJobs executes the jobs in `lanes` parallel lanes (most expensive first) and replays their
@@ -168,6 +177,9 @@ func (e *engine) runJobs(jobs []job, lanes int) {
 	sort.SliceStable(order, func(a, b int) bool { return jobs[order[a]].cost > jobs[order[b]].cost })
 	ch := make(chan int, len(jobs))
 	for _, i := range order {
+		if e.filter != nil && !e.filter[jobs[i].id] {
+			continue
+		}
 		ch <- i
 	}
 	close(ch)
@@ -307,7 +319,7 @@ func window(rep *report, seed uint64, t *target, G, reps int) {
 		oi.m += reps
 		f := fnv.New64a()
 		f.Write([]byte{byte(oi.h), byte(oi.h >> 8), byte(oi.h >> 16), byte(oi.h >> 24), byte(oi.h >> 32), byte(oi.h >> 40), byte(oi.h >> 48), byte(oi.h >> 56)})
-		f.Write(c.in)
+		f.Write(c.hin)
 		oi.h = f.Sum64()
 	}
 	for g := 0; g < G; g++ {
